@@ -11,7 +11,9 @@ META = dict(
          "(thorough) with states merged on a canonical form of the tables (key order, per-connection socket-double state, "
          "cutoff, received bytes) and the listener backlog. A second family adds peerreset(P) - the peer resets the "
          "connection, after which shutdown() on the server-side socket raises ENOTCONN / EBADF / EINVAL (plain OSError) or "
-         "ECONNRESET / EPIPE (ConnectionError) - and closeAllIx, BFS depth 5 / 8 per errno. After every transition: no operation raised; per peer address at "
+         "ECONNRESET / EPIPE (ConnectionError) - and closeAllIx, BFS depth 5 / 8 per errno. A third family adds connectbad(P) - an accept "
+         "whose socket answers getpeername() with ENOTCONN or a mismatching address, possibly batched with other accepts; "
+         "serviceConnects may raise for it once, then it must be gone and the other peers must get their entries - depth 5 / 7. After every transition: no operation raised; per peer address at "
          "most one table entry (.ixes and .cxes together) whose socket is neither shut down nor closed; the newest accepted, "
          "not removed connection of each address is the one in the table; a replaced stale connection is shut down or "
          "closed; no other socket was shut down or closed; removeIx leaves the socket closed and the key gone.",
@@ -29,6 +31,11 @@ DEPTH = dict(quick=8, thorough=11)
 # server-side socket raises this errno (plain OSErrors and the ConnectionError family); shallower BFS
 SHUTDOWN_FAULTS = ("ENOTCONN", "EBADF", "EINVAL", "ECONNRESET", "EPIPE")
 FAULT_DEPTH = dict(quick=5, thorough=8)
+# configurations with a connectbad(P) event: a connection whose accepted socket answers getpeername() with
+# OSError(ENOTCONN) (reset before the server got to it) or with another address than accept() reported, so
+# serviceAxes raises for it while other accepts may sit in the same batch; the caller keeps servicing
+ACCEPT_FAULTS = ("getpeername-ENOTCONN", "getpeername-mismatch")
+AFAULT_DEPTH = dict(quick=5, thorough=7)
 
 FSM = None
 M = None
@@ -57,7 +64,7 @@ class HsPolicy:
 
 
 class Conn:
-    __slots__ = ("idx", "peer", "client", "srv", "accepted", "removed", "closedix", "reset")
+    __slots__ = ("idx", "peer", "client", "srv", "accepted", "removed", "closedix", "reset", "bad", "reported")
 
     def __init__(self, idx, peer, client, srv):
         self.idx = idx
@@ -68,6 +75,8 @@ class Conn:
         self.removed = False    # removeIx was applied to its entry
         self.closedix = False   # closeIx was applied to its entry
         self.reset = False      # the peer reset it: shutdown() on the server-side socket raises the configured errno
+        self.bad = False        # connectbad: getpeername() of the accepted socket faults, serviceAxes must reject it
+        self.reported = False   # ... and did so (one exception out of serviceConnects)
 
 
 class World:
@@ -75,7 +84,8 @@ class World:
 
     def __init__(self, subject, history, fault=None):
         self.subject = subject
-        self.fault = fault      # errno name raised by shutdown() after a peerreset, or None (no such event)
+        self.afault = fault if fault in ACCEPT_FAULTS else None
+        self.fault = None if self.afault else fault   # errno name raised by shutdown() after a peerreset, or None
         self.policy = HsPolicy()
         self.fn = net.FakeNet(policy=self.policy)
         FSM.net = self.fn
@@ -93,6 +103,7 @@ class World:
         self.inc2conn = {}      # id(incomer) -> Conn (kept alive by self.incs)
         self.incs = []
         self.viol = None        # (kind, what)
+        self.refused = False    # the last serviceConnects refused a faulty accept by raising
         self.terminal = None    # unspecified territory reached: do not expand
         self.history = []
         for ev in history:
@@ -137,6 +148,8 @@ class World:
         for p in PEERS:
             if p not in self.live:
                 evs.append(("connect", p))
+                if self.afault:
+                    evs.append(("connectbad", p))
             else:
                 evs.append(("peerclose", p))
                 if self.fault:
@@ -162,7 +175,7 @@ class World:
         srv = self.srv
         op = ev[0]
         try:
-            if op == "connect":
+            if op in ("connect", "connectbad"):
                 p = ev[1]
                 c = self.fn.socket(name="cli%d" % len(self.conns))
                 c.bind(p)
@@ -173,6 +186,11 @@ class World:
                 c.send(bytes([65 + conn.idx]))
                 self.conns.append(conn)
                 self.live[p] = conn
+                if op == "connectbad":
+                    import errno
+                    conn.bad = True
+                    conn.srv.stick("getpeername", net.ERR(errno.ENOTCONN) if self.afault.endswith("ENOTCONN")
+                                   else ("addr", (net.LOOP, 1)))
                 return
             if op == "peerclose":
                 self.live.pop(ev[1]).client.close()
@@ -186,8 +204,22 @@ class World:
                 return
             if op == "serviceConnects":
                 self.policy.pend = (ev[1] == "pend")
+                inaxes = set(id(cs) for cs, ca in srv.axes)
+                pending_bad = [c for c in self.conns if c.bad and not c.reported
+                               and (c.srv in srv.ss.backlog or id(c.srv) in inaxes)]
+                self.refused = False
                 try:
                     srv.serviceConnects()
+                except (ValueError, OSError) as ex:
+                    if not pending_bad:
+                        raise
+                    self.refused = True
+                    # a faulty accept may be refused with an exception - once; then it has to be gone
+                    bad = pending_bad[0]
+                    bad.reported = True
+                    if any(cs is bad.srv for cs, ca in srv.axes) or bad.srv in srv.ss.backlog:
+                        self.viol = ("bad-accept-still-queued", "serviceConnects raised %s for the faulty accept from %r "
+                                     "but left it queued in .axes (%d queued)" % (type(ex).__name__, bad.peer, len(srv.axes)))
                 finally:
                     self.policy.pend = False
             elif op == "serviceReceivesAllIx":
@@ -242,9 +274,14 @@ class World:
 
     def invariants(self, op):
         srv = self.srv
+        inaxes = set(id(cs) for cs, ca in srv.axes)
         for c in self.conns:
-            if not c.accepted and c.srv not in srv.ss.backlog:
+            if not c.accepted and not c.bad and c.srv not in srv.ss.backlog and id(c.srv) not in inaxes:
                 c.accepted = True
+        if op == "serviceConnects" and not self.refused and srv.axes and not any(c.bad and not c.reported for c in self.conns):
+            self.viol = ("accepts-left-queued", "serviceConnects returned normally with %d accepted connection(s) still "
+                         "queued in .axes and no faulty accept left to report" % len(srv.axes))
+            return
         referenced = {}
         for tname, tbl in self.tables():
             for ca, inc in tbl.items():
@@ -305,11 +342,12 @@ class World:
                 if not ref and not inback and st == "closed" and c.client.closed:
                     continue          # fully dead: cannot influence anything any more
                 row.append((ref, inback, st, c.client.closed, c.removed, c.closedix, len(c.srv.inbox), c.reset,
-                            c.srv.calls["shutdown"] > 0))
+                            c.srv.calls["shutdown"] > 0, c.bad, c.reported))
             per.append((p in self.live, tuple(row)))
         order = tuple(tuple(tbl.keys()) for _, tbl in self.tables())
         back = tuple(s.raddr for s in srv.ss.backlog)
-        return (tuple(per), order, back)
+        queued = tuple(ca for cs, ca in srv.axes)
+        return (tuple(per), order, back, queued)
 
 
 def finish_replay(pid, path, p):
@@ -327,9 +365,12 @@ def finish_replay(pid, path, p):
 def report(p, subject, w, hist):
     kind, what = w.viol
     ftag = " [after peerreset shutdown() raises %s]" % w.fault if w.fault else ""
-    p.violation("%s|%s" % (subject, kind), " ".join(show(e) for e in hist) + (" shutdown=%s" % w.fault if w.fault else ""),
+    if w.afault:
+        ftag = " [connectbad: %s]" % w.afault
+    p.violation("%s|%s" % (subject, kind), " ".join(show(e) for e in hist) + (" shutdown=%s" % w.fault if w.fault else "")
+                + (" %s" % w.afault if w.afault else ""),
                 "%s after history [%s]%s: %s" % (subject, ", ".join(show(e) for e in hist), ftag, what),
-                dict(subject=subject, shutdown_fault=w.fault, history=[[e[0]] + [list(x) if isinstance(x, tuple) else x for x in e[1:]] for e in hist],
+                dict(subject=subject, shutdown_fault=w.fault or w.afault, history=[[e[0]] + [list(x) if isinstance(x, tuple) else x for x in e[1:]] for e in hist],
                      what=what, double_log=w.fn.trace(30),
                      how="serving.%s(ha=('',%d)) over mc.net doubles; connect = raw client bound to the peer "
                          "address connects and sends one byte; peerclose = that client closes; peerreset = that client "
@@ -405,6 +446,7 @@ def run():
     fdepth = FAULT_DEPTH[core.TIER]
     cfgs = [("Server", depth, None), ("ServerTls", depth, None)]
     cfgs += [(sub, fdepth, f) for f in SHUTDOWN_FAULTS for sub in ("Server", "ServerTls")]
+    cfgs += [(sub, AFAULT_DEPTH[core.TIER], f) for f in ACCEPT_FAULTS for sub in ("Server", "ServerTls")]
     ck.merge(core.pmap(explore, cfgs))
     ck.assumptions = [
         "a second connection from the same peer address can be made only after the previous client socket bound to that "
@@ -415,6 +457,10 @@ def run():
         "after a peer reset, shutdown() on the server-side socket raises the configured errno every time (ENOTCONN is what "
         "Linux answers; EBADF, EINVAL, ECONNRESET, EPIPE for completeness); an attempted shutdown on such a socket counts as "
         "'shut down' since the transport is already gone",
+        "connectbad: serviceConnects may refuse a faulty accept (getpeername ENOTCONN / address mismatch) by raising "
+        "ValueError/OSError once; the caller keeps servicing; afterwards that accept must be gone (not queued, no entry "
+        "required) and every other accepted peer must get its one live entry on the following passes without further "
+        "exceptions",
         "closeIx leaves a closed entry in the table by design; serviceReceivesAllIx on such a table is outside the statement",
     ]
     ck.coverage_extra = dict(shutdown_faults=list(SHUTDOWN_FAULTS), fault_depth=fdepth, depth=depth, peers=[list(x) for x in PEERS], subjects=["Server", "ServerTls"],
@@ -423,8 +469,9 @@ def run():
         rule="BFS over all histories of {connect(P), peerclose(P), serviceConnects[ok|pend], serviceReceivesAllIx, "
              "removeIx(P), closeIx(P)} for P in 2 peer addresses up to depth %d, per subject {Server, ServerTls}; plus, per "
              "shutdown errno in {ENOTCONN, EBADF, EINVAL, ECONNRESET, EPIPE}, the same with the extra events peerreset(P) and "
-             "closeAllIx up to depth %d; states merged by canonical form; a state that violates an invariant is not "
-             "expanded" % (depth, fdepth),
+             "closeAllIx up to depth %d; plus, per accept fault in {getpeername ENOTCONN, getpeername address mismatch}, the "
+             "base events and connectbad(P) up to depth %d; states merged by canonical form; a state that violates an "
+             "invariant is not expanded" % (depth, fdepth, AFAULT_DEPTH[core.TIER]),
         exhaustive=False,
         explanation="depth-bounded: exhaustive over all histories up to the stated depth, not a fixpoint "
                     "(leaked stale sockets make the state space unbounded)")
